@@ -238,6 +238,9 @@ class DeviceSim(object):
     def _send_cnxn(self):
         self._strays()
         self.phase = "online"
+        per_conn = self.cfg.get("maxdata_by_connection")
+        if per_conn:
+            self.maxdata = int(per_conn[min(self.connects, len(per_conn)) - 1])
         banner = self.cfg.get("banner", b"device::ro.product.name=sim;\0")
         self.control.append((self._next_seq(), Packet(A_CNXN, wire.A_VERSION, self.maxdata, banner)))
 
@@ -651,17 +654,22 @@ class SyncService(object):
         recs = []
         pos = 0
         i = 0
+        empties = set(cfg.get("recv_empty_at") or ())     # positions (record indexes) at which an extra zero-length DATA record is sent
         while pos < len(content):
+            if len(recs) in empties:
+                recs.append(wire.sync_data(b""))
             n = max(1, min(int(sizes[i % len(sizes)]), wire.SYNC_DATA_MAX))
             i += 1
             recs.append(wire.sync_data(content[pos:pos + n]))
             pos += n
+        if len(recs) in empties or (not recs and empties):
+            recs.append(wire.sync_data(b""))
         if rf is not None:
             j = min(rf.get("after", 0), len(recs))
             recs = recs[:j] + [wire.sync_fail(rf.get("reason", b"fail"))]
         elif bad is not None:
             j = min(bad.get("after", 0), len(recs))
-            recs = recs[:j] + [struct.pack("<2I", bad["id"], 0)]
+            recs = recs[:j] + [bad.get("raw") or struct.pack("<2I", bad["id"], 0)]
         else:
             recs.append(wire.sync_done())
         self.reply(recs)
@@ -700,7 +708,7 @@ class SyncService(object):
             pass
         elif bad is not None:
             self.cur["status"] = "BAD"
-            self.reply([struct.pack("<2I", bad["id"], 0)])
+            self.reply([bad.get("raw") or struct.pack("<2I", bad["id"], 0)])
         elif self.sim.cfg.get("push_withhold"):
             self.cur["status"] = "WITHHELD"
         else:
